@@ -107,7 +107,7 @@ Section absent.
         as (s' & R' & Hf' & HP' & Hsr' & HR' & Hno'); [by apply A_in_U_rm|done|].
       exists s', (R1 ++ R'). split; [done|].
       rewrite rm_rm in HP', Hno'. split.
-      { eapply PInv_ext; [done| |exact HP']. intros op. rewrite fmap_cons, list_to_set_cons. set_solver. }
+      { eapply PInv_ext; [done| |exact HP']. intros op. rewrite fmap_cons, list_to_set_cons, !elem_of_union. tauto. }
       split.
       { eapply same_rest_trans; [exact Hsr1|].
         eapply same_rest_trans; [apply same_rest_set_unmined_credits|exact Hsr']. }
